@@ -5,6 +5,7 @@ import (
 	stdjson "encoding/json"
 	"fmt"
 	"reflect"
+	"regexp"
 	"strconv"
 	"strings"
 	"unicode"
@@ -47,10 +48,12 @@ func jUnmarshal(t *sx, cfg int, docs [][]byte) {
 	if fn == "j.unmarshal" {
 		ts := sxString(t)
 		switch {
-		case strings.Contains(ts, "(ptr (ptr"):
-			fn += ".pp"
-		case strings.Contains(ts, "Number"):
-			fn += ".num"
+		case strings.Contains(ts, "(ptr (ptr") && docsContain(docs, "null"):
+			fn += ".pp" // F31: null into a **T whose outer pointer is set
+		case strings.Contains(ts, "Number") && hasQuotedJSONNumber(docs):
+			fn += ".num" // F14: a quoted number decoded into a json.Number
+		case strings.Contains(ts, ",string") && (strings.Contains(ts, "f32") || strings.Contains(ts, "f64")) && hasQuotedNonJSONFloat(docs):
+			fn += ".qfloat"
 		}
 	}
 	run := func(seg bool) string {
@@ -235,7 +238,15 @@ func mutateDoc(d []byte) []byte {
 		p := rndn(len(m))
 		m[p] = pick([]byte(`{}[],:"0n `))
 		return m
-	case 5: // wrap / unwrap
+	case 5: // a string member value becomes null (a typed decoder that does nothing on null must not keep scratch state)
+		if rndBool() {
+			if locs := stringValueRE.FindAllIndex(m, -1); len(locs) > 0 {
+				l := locs[rndn(len(locs))]
+				return append(append(append([]byte(nil), m[:l[0]+1]...), "null"...), m[l[1]:]...)
+			}
+		}
+		return []byte("[" + string(m) + "]")
+	case 7: // wrap / unwrap
 		return []byte("[" + string(m) + "]")
 	case 6:
 		return []byte(" \n" + string(m) + "\t ")
@@ -256,6 +267,7 @@ func c02() {
 	for _, s := range []string{"bool", "i8", "u8", "i16", "u16", "i32", "u32", "i64", "u64", "int", "uint", "f32", "f64", "str", "bytes", "any", "Number", "Time", "(ptr int)", "(slice int)", "(arr 2 int)", "(arr 0 int)", "(map str int)", "(map int str)",
 		"(struct (f A - int) (f B ,string int) (f C ,string str) (f D ,string bool) (f E ,string f64) (f F ,string (ptr int)))",
 		"(struct (f Abc - int) (f ABC - int) (f Abc_ x int))", "(map str (slice str))", "(map str any)", "(slice any)", "(ptr (ptr str))", "(struct (f A - any) (f B - (ptr any)))",
+		"(map str str)", "(struct (f M - (map str str)) (f N - (map str (slice str))))", "(slice (map str str))", "(map str bool)", "(map str RawMessage)",
 		"(arr 3 int)", "(struct (f A - (arr 3 int)) (f B - (slice int)) (f C - (map str int)))", "(arr 2 (slice int))", "(slice (arr 2 str))", "(ptr (arr 3 i8))"} {
 		types = append(types, parseSx(s))
 	}
@@ -275,6 +287,13 @@ func c02() {
 		}
 		for k := 0; k < 4; k++ {
 			jUnmarshal(t, rndn(6), [][]byte{[]byte(pick(jScalarsDocs))})
+		}
+		// each string member value replaced by null, one at a time (typed decoders that do nothing on null must not
+		// carry scratch state from the previous member)
+		if len(valid) > 0 {
+			for _, d := range nullifyEach(valid[0], 4) {
+				jUnmarshal(t, rndn(6), [][]byte{d})
+			}
 		}
 		// reset histories: a populated target followed by an emptier document of each shape (what must be cleared,
 		// zeroed or kept is decided by encoding/json), then repopulated
@@ -321,4 +340,62 @@ func init() {
 		x ^= x << 17
 		jScalarsDocs = append(jScalarsDocs, fmt.Sprintf("%d%d", 1+x%9, x), fmt.Sprintf("-%d%d", 1+x%9, x>>1))
 	}
+}
+
+// hasQuotedNonJSONFloat: some document contains a string token that strconv.ParseFloat accepts although it is not a
+// JSON number ("2.e-9", "-.5", "0x1p-2", "-Inf"): encoding/json hands the content of a ",string" float field to
+// strconv without checking the JSON number syntax (recorded finding F44)
+var quotedTokenRE = regexp.MustCompile(`"([^"\\]{1,40})"`)
+
+func hasQuotedNonJSONFloat(docs [][]byte) bool {
+	for _, d := range docs {
+		for _, m := range quotedTokenRE.FindAllSubmatch(d, -1) {
+			if _, err := strconv.ParseFloat(string(m[1]), 64); err == nil && !stdjson.Valid(m[1]) {
+				return true
+			}
+		}
+	}
+	return false
+}
+
+// float32 probes: beyond the float32 range (finite as float64), at the largest float32, and near rounding midpoints
+// where parsing as float64 first and narrowing afterwards rounds twice
+func init() {
+	jScalarsDocs = append(jScalarsDocs, "1e39", "-1e39", "3.5e38", "3.4028235677973366e38", "3.4028234663852886e38", "3.4028235e38", "1e308",
+		"340282356779733661637539395458142568448", "1.0000000596046447753906250000000001", "16777217.0000000000001", "1e-46", "1.401298464324817e-45", "7.006492321624085e-46", "0.1", "16777217")
+}
+
+var stringValueRE = regexp.MustCompile(`:"[^"\\]*"`)
+
+func docsContain(docs [][]byte, sub string) bool {
+	for _, d := range docs {
+		if bytes.Contains(d, []byte(sub)) {
+			return true
+		}
+	}
+	return false
+}
+
+// hasQuotedJSONNumber: some document contains a string token whose content is a JSON number
+func hasQuotedJSONNumber(docs [][]byte) bool {
+	for _, d := range docs {
+		for _, m := range quotedTokenRE.FindAllSubmatch(d, -1) {
+			if c := m[1][0]; (c == '-' || (c >= '0' && c <= '9')) && stdjson.Valid(m[1]) {
+				return true
+			}
+		}
+	}
+	return false
+}
+
+// nullifyEach: the documents obtained from d by replacing one string member value by null (at most n of them, the
+// later ones first: a null after a non-empty string is the interesting order)
+func nullifyEach(d []byte, n int) [][]byte {
+	locs := stringValueRE.FindAllIndex(d, -1)
+	var out [][]byte
+	for i := len(locs) - 1; i >= 0 && len(out) < n; i-- {
+		l := locs[i]
+		out = append(out, append(append(append([]byte(nil), d[:l[0]+1]...), "null"...), d[l[1]:]...))
+	}
+	return out
 }
